@@ -3,10 +3,10 @@ package c07
 import (
 	"bytes"
 	"context"
-	"errors"
-	"io"
 	"encoding/json"
+	"errors"
 	"fmt"
+	"io"
 	"runtime"
 	"strings"
 	"testing"
@@ -61,11 +61,12 @@ type Elem struct {
 
 type Script struct {
 	Elems        []Elem `json:"elems"`
-	Trunc        int    `json:"trunc"`       // -1: whole script; else input ends after this many bytes
-	EndWithError bool   `json:"end_error"`   // input ends with a read error instead of EOF
-	FailOutAt    int    `json:"fail_out_at"` // -1: output stays open
-	GatesLate    bool   `json:"gates_late"`  // remaining gates open only after the input has ended
-	Frag         int    `json:"frag"`        // max bytes per read of the input
+	Trunc        int    `json:"trunc"`              // -1: whole script; else input ends after this many bytes
+	EndWithError bool   `json:"end_error"`          // input ends with a read error instead of EOF
+	FailOutAt    int    `json:"fail_out_at"`        // -1: output stays open
+	GatesLate    bool   `json:"gates_late"`         // remaining gates open only after the input has ended
+	Frag         int    `json:"frag"`               // max bytes per read of the input
+	Coalesce     bool   `json:"coalesce,omitempty"` // one read may deliver several consecutive frames (a client that does not wait)
 }
 
 func (e Elem) bytes() []byte {
@@ -151,6 +152,7 @@ func workerFn(raw json.RawMessage) json.RawMessage {
 	}
 	reader := atpx.NewScriptReader(items, gates)
 	reader.Frag = sc.Frag
+	reader.Coalesce = sc.Coalesce
 	writer := atpx.NewCaptureWriter(sc.FailOutAt)
 	done := make(chan []*atp.ServerError, 1)
 	go func() {
@@ -542,6 +544,7 @@ func genScript(t *rapid.T) Script {
 	sc.EndWithError = rapid.IntRange(0, 4).Draw(t, "endErr") == 0
 	sc.GatesLate = rapid.Bool().Draw(t, "gatesLate")
 	sc.Frag = rapid.SampledFrom([]int{0, 0, 1, 3, 7}).Draw(t, "frag")
+	sc.Coalesce = sc.Frag == 0 && rapid.Bool().Draw(t, "coalesce")
 	return sc
 }
 
